@@ -129,12 +129,18 @@ def handle_path_command(args: argparse.Namespace) -> None:  # noqa: PLR0912, D10
 
     try:
         data = json.load(args.file)
-        values = path.find(data).values()
-    except json.JSONDecodeError as err:
+    except (ValueError, RecursionError) as err:
+        # JSONDecodeError and UnicodeDecodeError are both ValueErrors, as is an
+        # integer with more digits than the interpreter is willing to convert.
+        # The JSON decoder is recursive, so deeply nested documents can exceed
+        # the interpreter's recursion limit.
         if args.debug:
             raise
         sys.stderr.write(f"target document json decode error: {err}\n")
         sys.exit(1)
+
+    try:
+        values = path.find(data).values()
     except JSONPathTypeError as err:
         # Type errors are currently only occurring are compile-time.
         if args.debug:
